@@ -12,6 +12,23 @@ CLAIMS = {
    text="Every history of new_set/union/try_union/find_mut/try_find_mut/clone/capacity calls over a bounded element universe (<=5 elements quick, <=7 thorough; u8 at 254..256 elements; all four index widths) is executed on the real UnionFind; after every call the complete query battery (find/try_find/equiv/try_equiv over all in- and out-of-range arguments, into_labeling) is compared with a plain partition model. States are the full concrete parent/rank vectors, so every path-compression shape is covered. BFS reaches the fixpoint of the bounded universe (exhaustive:true in the evidence).",
    note="Bounded element universe; u32/usize capacity limits not reachable by execution; reference model RefPartition (label vector) is trusted."),
 }
+
+def e2claim(design, what, note="Bounded input sizes (see evidence families[*].bounds); brute-force oracles in harness/src/algs and harness/src/refmodel are trusted; float costs are small integers so arithmetic is exact."):
+    return dict(engine=E2, design=design,
+      technique="exhaustive enumeration of all labelled input graphs within stated bounds, real algorithm run on every encoding, compared with a brute-force oracle (bounded-exhaustive model checking of the implementation over its input space)",
+      text=what, note=note)
+CLAIMS.update({
+ "C08": e2claim("§4.C08", "Every labelled directed/undirected graph with self-loops on <=4 nodes and every ordered edge list (multigraph) on 3 nodes, every start node, on seven graph encodings and through Reversed/NodeFiltered(all node subsets)/EdgeFiltered(all edge subsets)/UndirectedAdaptor: Dfs/Bfs/DfsPostOrder/Topo sequences checked against reachability, hop levels, post-order and cycle-downstream sets; move_to/reset/empty/with_initials included; depth_first_search event streams compared with a reference DFS under every control script with one (quick) or two (thorough) deviations from all-Continue."),
+ "C09": e2claim("§4.C09", "Every labelled graph of the families (all digraphs/undirected graphs with loops on <=4 nodes, ordered multigraph edge lists on 3 nodes; thorough adds 5 nodes) on up to 11 encodings: kosaraju_scc, tarjan_scc, TarjanScc::run (fresh and reused), node_component_index, connected_components, has_path_connecting (fresh/reused/dirty DfsSpace, all pairs), is_cyclic_directed/undirected, is_bipartite_undirected (all starts), toposort (with/without space), condensation (both flags) compared with closure-based oracles."),
+ "C10": e2claim("§4.C10", "Every weighted graph of the families (ordered weighted edge lists on 3 nodes with loops/parallels/zero costs, weighted simple graphs on 3-4 nodes; u32 and f64 costs) x every source x every goal and goal set x k in 1..=4 on seven encodings: dijkstra (with/without goal), astar (h=0, exact, exact/2, and every admissible h:V->{0,1,2} incl. inconsistent ones), k_shortest_path compared with exact all-pairs distances and k-smallest-walk-cost fixpoints."),
+ "C11": e2claim("§4.C11", "Every weighted graph with negative, zero and positive costs of the families x every source on up to nine encodings (f64/i32, thorough i64/f32): bellman_ford, spfa, floyd_warshall(_path), find_negative_cycle compared with exact distances and exact negative-cycle reachability; predecessor trees and prev matrices must spell shortest paths; returned negative cycles must be closed negative walks."),
+ "C12": e2claim("§4.C12", "Every weighted undirected multigraph (loops, parallels, repeated weights) of the families, stored undirected and directed in up to eight encodings: the min_spanning_tree / min_spanning_tree_prim element streams are checked for node order, edge membership, acyclicity, |V|-c edges and minimum total weight (brute force over all edge subsets)."),
+ "C13": e2claim("§4.C13", "Every ordered pair of labelled simple graphs (with self-loops) of the families - so every relabeling of either argument is enumerated - on Graph and GraphMap encodings: is_isomorphic, is_isomorphic_subgraph, the _matching variants over every {0,1} node/edge weighting and seven predicate pairs, and subgraph_isomorphisms_iter (exact multiset of embeddings) compared with brute force over all injections."),
+ "C15": e2claim("§4.C15", "Matching: every labelled undirected (multi)graph on <=5 nodes (+6 loop-free) on nine encodings incl. StableGraph with vacancies: validity of greedy/maximum matching and maximum cardinality vs brute force. Flow: every capacitated directed multigraph of the families x every (s,t): capacity, conservation, value = min cut (all cuts enumerated), on Graph and StableGraph with node/edge vacancies, u8/u32/f64.", "Bounded sizes; maximality only asserted on undirected storage (DESIGN note N3); oracles trusted."),
+ "C16": e2claim("§4.C16", "Dominators: every labelled digraph with loops on <=4 nodes (+ordered lists; thorough 5 nodes) x every root on nine encodings incl. Reversed: dominators/strict_dominators/immediate_dominator/immediately_dominated_by compared with the remove-a-node definition. Articulation points: every labelled undirected (multi)graph with loops on <=5 nodes (thorough 6) on nine encodings vs the component-count definition."),
+ "C20": e2claim("§4.C20", "maximal_cliques and dsatur_coloring on every undirected simple graph on <=5 (thorough 6) nodes in nine encodings; greedy_feedback_arc_set on every directed multigraph list (n<=4); transitive reduction/closure on every DAG on <=4 (thorough 5) nodes with every valid toposort; all_simple_paths for all (a,b,min,max) on every digraph on <=4 nodes; steiner_tree on every weighted graph on <=5 nodes x every connected terminal set (2-approximation vs brute-force optimum); page_rank invariants and equivariance under every node permutation.", "Bounded sizes; steiner_tree iterates hashbrown maps whose seed the harness does not control (the property must hold for every seed; each run covers one); known findings D12, D23 listed in known_findings.json."),
+})
+
 PENDING_REASON = "check not built yet in this round (see DESIGN.md §9 for the order); no claim is made"
 
 def main():
